@@ -6,7 +6,7 @@
    The array `maximas` of the code (candidate indices, -1 = eliminated) is modelled as a static list of
    (index, value) pairs plus a parallel list of "still alive" flags; since only the flags change, both loops
    are structural recursions on the static list and no fuel is needed. *)
-From Coq Require Import ZArith QArith Qcanon List Bool Lia Uint63.
+From Coq Require Import NArith ZArith QArith Qcanon List Bool Lia.
 From ScaredV Require Import Run.Compare Lib.QcSum.
 Import ListNotations.
 Local Open Scope nat_scope.
@@ -146,23 +146,15 @@ Definition height_of (h : zheight) : height :=
 (* one call find_peaks(data, d, h) and the indices it returned *)
 Record pk_query := pkq { pq_d : nat; pq_h : zheight; pq_obs : list nat }.
 
-(* sets of small naturals packed in primitive 63-bit integers (compact case files; only the check functions use it):
-   every set takes [bits] bits, 62 / bits sets per word; set q is in word q / per at bit offset (q mod per) * bits *)
-Definition unmask_at (bits off : nat) (m : int) : list nat :=
-  filter (fun i => Uint63.bit m (Uint63.of_Z (Z.of_nat (off + i)))) (seq 0 bits).
-Definition per_word (bits : nat) : nat := 62 / Nat.max bits 1.
-Definition words_for (bits nq : nat) : nat := (nq + per_word bits - 1) / per_word bits.
-Definition packed_nth (bits : nat) (ws : list int) (q : nat) : list nat :=
-  let per := per_word bits in unmask_at bits ((q mod per) * bits) (nth (q / per) ws 0%uint63).
-Definition unpack (bits nq : nat) (ws : list int) : list (list nat) := map (packed_nth bits ws) (seq 0 nq).
+(* a set of naturals below [bits] as the bits of a binary natural number (compact case files) *)
+Definition unmask (bits : nat) (m : N) : list nat := filter (fun i => N.testbit m (N.of_nat i)) (seq 0 bits).
 
 (* data and finite heights are given as integers (the harness scales dyadic values by a common power of two).
    Two ways to give the calls: [pk_queries] explicitly, and a grid: for every height of [pk_hs] (outer) and every
-   distance 0 .. pk_nd - 1 (inner) the set of the returned indices, packed in [pk_masks] (len bits per set). *)
-Record pk_case := { pk_data : list Z; pk_queries : list pk_query; pk_hs : list zheight; pk_nd : nat; pk_masks : list int }.
+   distance 0 .. pk_nd - 1 (inner) the set of the returned indices as a bit mask, in [pk_masks]. *)
+Record pk_case := { pk_data : list Z; pk_queries : list pk_query; pk_hs : list zheight; pk_nd : nat; pk_masks : list N }.
 
-Definition pk_grid_obs (c : pk_case) : list (list nat) :=
-  unpack (length (pk_data c)) (length (pk_hs c) * pk_nd c) (pk_masks c).
+Definition pk_grid_obs (c : pk_case) : list (list nat) := map (unmask (length (pk_data c))) (pk_masks c).
 
 Definition pk_grid_queries (c : pk_case) : list pk_query :=
   map (fun hdo => pkq (snd (fst hdo)) (fst (fst hdo)) (snd hdo))
@@ -215,7 +207,7 @@ Fixpoint chunks {A} (k : nat) (fuel : nat) (l : list A) : list (list A) :=
 Definition pk_check (c : pk_case) : bool :=
   let data := map qcz (pk_data c) in
   let n := length data in
-  (length (pk_masks c) =? words_for n (length (pk_hs c) * pk_nd c))
+  (length (pk_masks c) =? length (pk_hs c) * pk_nd c)
   && forallb (pk_query_check data) (pk_queries c)
   && forallb2 (fun h obs => pk_h_check data (height_of h) (combine (seq 0 (pk_nd c)) obs))
               (pk_hs c) (chunks (pk_nd c) (length (pk_hs c)) (pk_grid_obs c)).
@@ -235,15 +227,14 @@ Definition wmode_of (m : zwmode) : wmode :=
 
 Record fw_query := fwq { fq_dir : direction; fq_thr : Z; fq_mode : zwmode; fq_obs : list (nat * nat) }.
 (* explicit calls, and a grid: both directions (outer) x thresholds [fw_thrs] x modes [fw_modes] (inner), for each
-   the returned rows as a packed set: bit s for a start s, bit len + 1 + e for an end e (2 * (len + 1) bits per set),
-   k-th start paired with k-th end *)
+   the returned rows as a bit mask: bit s for a start s, bit len + 1 + e for an end e, k-th start paired with k-th end *)
 Record fw_case := { fw_data : list Z; fw_queries : list fw_query;
-                    fw_thrs : list Z; fw_modes : list zwmode; fw_masks : list int }.
+                    fw_thrs : list Z; fw_modes : list zwmode; fw_masks : list N }.
 
 Definition fw_grid_rows (c : fw_case) : list (list (nat * nat)) :=
   let n1 := S (length (fw_data c)) in
   map (fun both => combine (filter (fun v => v <? n1) both) (map (fun v => v - n1) (filter (fun v => n1 <=? v) both)))
-      (unpack (2 * n1) (2 * (length (fw_thrs c) * length (fw_modes c))) (fw_masks c)).
+      (map (unmask (2 * n1)) (fw_masks c)).
 
 Definition fw_grid_queries (c : fw_case) : list fw_query :=
   map (fun qm => fwq (fst (fst (fst qm))) (snd (fst (fst qm))) (snd (fst qm)) (snd qm))
@@ -293,7 +284,7 @@ Definition fw_check (c : fw_case) : bool :=
   let data := map qcz (fw_data c) in
   let nm := length (fw_modes c) in
   let nt := length (fw_thrs c) in
-  (length (fw_masks c) =? words_for (2 * S (length data)) (2 * (nt * nm)))
+  (length (fw_masks c) =? 2 * (nt * nm))
   && forallb (fw_query_check data) (fw_queries c)
   && forallb2 (fun dt rows => fw_t_check data (fst dt) (qcz (snd dt)) (combine (fw_modes c) rows))
               (flat_map (fun dr => map (fun t => (dr, t)) (fw_thrs c)) [Positive; Negative])
